@@ -103,4 +103,14 @@ def stepStoreBeforeError (plus : Bool) (s : HState) (ct : ChangeType) (o : Outco
   | .noChange => (s, none)
   | _ => ({ (step plus s ct o).1 with latestErr := false }, (step plus s ct o).2)
 
+/-- VARIANT (refuted, see `sticky_error_refuted`; seeded change C01-r4m3): a failure is written into
+`h.latestReloadResult.Error` directly and the field is never overwritten after a successful batch — the remembered result can
+only turn to "failed", never back; every status (the batch's own and the out-of-batch ones) reads the remembered field -/
+def stepStickyError (plus : Bool) (s : HState) (ct : ChangeType) (o : Outcome) : HState × Option Bool :=
+  match ct with
+  | .noChange => (s, none)
+  | _ =>
+    let e := s.latestErr || applyErr plus ct o
+    ({ (step plus s ct o).1 with latestErr := e }, some e)
+
 end NGF.HandlerStatus
